@@ -122,6 +122,30 @@ pub fn run(l: &[i128]) -> Vec<i128> {
                 Err(_) => vec![-1],
             }
         }
+        Some(11) if l.len() >= 4 => {
+            // a valid file with one bit flipped: Err, or Ok with exactly the pixels of the intact file (a flip in a part the
+            // format lets a decoder ignore); -> 0 Err, 1 Ok identical, 2 Ok with other pixels / size, -3 the intact file does not decode
+            let (pos, bit) = (l[1] as usize, l[2] as u32 % 8);
+            let mut data: Vec<u8> = l[3..].iter().map(|x| *x as u8).collect();
+            let good = match Pixmap::decode_png(&data) {
+                Ok(p) => p,
+                Err(_) => return vec![-3],
+            };
+            if pos >= data.len() {
+                return vec![-3];
+            }
+            data[pos] ^= 1 << bit;
+            match Pixmap::decode_png(&data) {
+                Err(_) => vec![0],
+                Ok(p) => {
+                    if p.width() == good.width() && p.height() == good.height() && p.data() == good.data() {
+                        vec![1]
+                    } else {
+                        vec![2]
+                    }
+                }
+            }
+        }
         Some(5) => {
             let data: Vec<u8> = l[1..].iter().map(|x| *x as u8).collect();
             let a = Pixmap::decode_png(&data).is_ok() as i128;
